@@ -111,6 +111,14 @@ def run(ctx):
         mdir = os.path.join(work, "mut")
         os.makedirs(mdir)
         muts = mutants(seeds, ctx.pick(6000, 60000), ctx.seed)
+        # every text seed also through the file path at a multiple of the page size, one byte less and one byte more
+        # (control byte: bit 3 = string-vs-file differential, bits 4-5 = size class), with both flag values
+        for f in seeds:
+            d = open(f, "rb").read()
+            if d[1:2] == b"g":
+                for padc in (1, 2, 3):
+                    for fl in (0, 1):
+                        muts.append(bytes([fl | 8 | (padc << 4)]) + d[1:])
         for i, b in enumerate(muts):
             open(os.path.join(mdir, "m%06d" % i), "wb").write(b)
         mstats = os.path.join(work, "mut.stats")
@@ -176,7 +184,7 @@ def run(ctx):
         ulist = sorted(units.values())
         for k in range(0, len(ulist), 2000):
             run_files(ulist[k:k + 2000], cstats)
-        tot = {"total": 0, "past_header": 0, "accepted": 0, "rej_header": 0, "rej_body": 0, "recorder": 0, "problem": 0, "null": 0, "diff_runs": 0,
+        tot = {"total": 0, "past_header": 0, "accepted": 0, "rej_header": 0, "rej_body": 0, "recorder": 0, "problem": 0, "null": 0, "diff_runs": 0, "page_multiple": 0, "diff_page_multiple_accepted": 0,
                "skipped_huge_header_for_problem_builder": 0}
         segs = {}
         if os.path.exists(cstats):
@@ -186,7 +194,7 @@ def run(ctx):
                     tot[k] += j.get(k, 0)
                 for s, v in j["segs"].items():
                     segs[s] = segs.get(s, 0) + v
-        camp = {"total": 0, "past_header": 0, "accepted": 0, "rej_header": 0, "rej_body": 0, "recorder": 0, "problem": 0, "null": 0, "diff_runs": 0,
+        camp = {"total": 0, "past_header": 0, "accepted": 0, "rej_header": 0, "rej_body": 0, "recorder": 0, "problem": 0, "null": 0, "diff_runs": 0, "page_multiple": 0, "diff_page_multiple_accepted": 0,
                 "skipped_huge_header_for_problem_builder": 0}
         for i in range(common.NCPU):
             st = os.path.join(work, "stats%d" % i)
@@ -203,7 +211,8 @@ def run(ctx):
         res.extra["targeted_corruptions"] = len(muts)
         res.labels.update({"handler:recorder": camp["recorder"], "handler:mp::Problem": camp["problem"], "handler:null": camp["null"],
                            "outcome:accepted": camp["accepted"], "outcome:rejected-in-header": camp["rej_header"],
-                           "outcome:rejected-after-header": camp["rej_body"], "string-vs-file differential runs": camp["diff_runs"]})
+                           "outcome:rejected-after-header": camp["rej_body"], "string-vs-file differential runs": camp["diff_runs"],
+                           "string-vs-file differential on an accepted file of page-multiple size": camp["diff_page_multiple_accepted"]})
         for f in ulist[:3]:
             d = open(f, "rb").read()
             res.samples.append({"control_byte": d[0], "nl_prefix": d[1:120].decode("latin-1")})
